@@ -116,16 +116,21 @@ def trace(seed, n, path):
         xs = [-5e-324, -1e-300, -1e-17, -2.0 ** -60 * L, -0.0, 0.0, 5e-324, succ(0.0), L / 2, pred(L / 2), succ(L / 2),
               pred(L), L, succ(L), 2 * L, pred(2 * L), -L, pred(-L), succ(-L), -L / 2, 3 * L - math.ulp(3 * L), 1e6 * L,
               -1e6 * L, 1e15 * L + L / 3, -1e15 * L - L / 3, L / 3, -L / 3, 17.25 * L, -17.25 * L]
-        xs += [k * L + e for k in (-3, -1, 1, 2, 5) for e in (-math.ulp(k * L), math.ulp(k * L))]
+        xs += [k * L + e for k in (-45, -9, -3, -1, 1, 2, 5, 7, 13, 31) for e in (-math.ulp(k * L), math.ulp(k * L))]
         xs += [rnd.uniform(-4 * L, 4 * L) for _ in range(n)] + [rnd.uniform(-1, 1) * L * 10.0 ** rnd.randint(-18, 12)
                                                                for _ in range(n)]
         cub_results = []
         for x in xs:
             o = f_pos_c(x, 0)
             s = f_sep_c(x, 0)
-            cub_results.append((x, o, f_pos_c(o, 0), s))
+            vec = [x, L / 4, x]                      # the in-place vector versions, on the same input
+            pc.correct_position(vec)
+            svec = [x, 0.0, x]
+            pc.correct_separation(svec)
+            cub_results.append((x, o, f_pos_c(o, 0), s, vec[0] if vec[0] == vec[2] or vec[0] != vec[0] else float("nan"),
+                                svec[0] if svec[0] == svec[2] or svec[0] != svec[0] else float("nan")))
         pq = cuboid([L, L, L])
-        for x, o, again, s in cub_results:
+        for x, o, again, s, vec0, svec0 in cub_results:
             o2 = pq.correct_position_entry(x, 2)
             s2 = pq.correct_separation_entry(x, 1)
             Lf, xf = Fraction(L), Fraction(x)
@@ -133,7 +138,10 @@ def trace(seed, n, path):
             d = abs(Fraction(o) - exact)
             d = min(d, Lf - d) if d <= Lf else d
             res = min(10 ** 6, int(math.ceil(d / Fraction(math.ulp(L)))))
+            qvec = [x, x, x]
+            pq.correct_position(qvec)
             out.write(json.dumps(dict(op="pos", L=fkey(L), x=fkey(x), out=fkey(o), again=fkey(again), cuboid=fkey(o2),
+                                      vec=fkey(vec0), qvec=fkey(qvec[0] if qvec[0] == qvec[1] == qvec[2] else float("nan")),
                                       res=res, xs=repr(x), Ls=repr(L))) + "\n")
             es = xf + Lf / 2
             es = es - (es // Lf) * Lf - Lf / 2
@@ -141,7 +149,7 @@ def trace(seed, n, path):
             d = min(d, abs(Lf - d))
             # the implementation rounds s + L/2 once (magnitude |s| + L/2), then stays at magnitude L
             res = min(10 ** 6, int(math.ceil(d / Fraction(math.ulp(abs(x) + L)))))
-            out.write(json.dumps(dict(op="sep", L=fkey(L), x=fkey(x), out=fkey(s), cuboid=fkey(s2), half=fkey(L / 2),
+            out.write(json.dumps(dict(op="sep", L=fkey(L), x=fkey(x), out=fkey(s), cuboid=fkey(s2), half=fkey(L / 2), vec=fkey(svec0),
                                       mhalf=fkey(-(L / 2)), res=res, xs=repr(x), Ls=repr(L))) + "\n")
     setting.reset()
     out.close()
